@@ -32,6 +32,8 @@ func c18Decl(layout int, subOpt bool, defaultOpts bool) *decl.Decl {
 		{Field: "Secret", Long: "secret", Type: decl.TBool, Hidden: "yes"},
 		{Field: "Vee", Long: "vee", Type: decl.TBool},
 		{Field: "ShortOnly", Short: "x", Type: decl.TBool},
+		{Field: "HiddenShort", Short: "y", Type: decl.TBool, Hidden: "yes"},
+		{Field: "Umlaut", Short: "ü", Long: "umlaut", Type: decl.TWords2},
 	}}
 	deep := &decl.Cmd{Field: "Deep", Name: "deep", Opts: []*decl.Opt{{Field: "Depth", Long: "depth", Type: decl.TInt}}}
 	add := &decl.Cmd{Field: "Add", Name: "add", Aliases: []string{"a2"}, SubOptional: true, Cmds: []*decl.Cmd{deep}, Opts: []*decl.Opt{
@@ -65,10 +67,10 @@ func c18Decl(layout int, subOpt bool, defaultOpts bool) *decl.Decl {
 
 var c18Units = [][]string{
 	{"-v"}, {"--verbose"}, {"-f"}, {"-f", "alpha"}, {"--file=alpha"}, {"-fbeta"}, {"-vf"}, {"-o"}, {"--opt=x"}, {"-n", "5"}, {"--num"},
-	{"add"}, {"a2"}, {"rm"}, {"deep"}, {"adx"}, {"zz"}, {"alpha"}, {"7"}, {"--"}, {"--force"}, {"--from", "gamma"}, {"-x"},
+	{"add"}, {"a2"}, {"rm"}, {"deep"}, {"adx"}, {"zz"}, {"alpha"}, {"7"}, {"--"}, {"--force"}, {"--from", "gamma"}, {"-x"}, {"-ü", "gamma"}, {"-ü"}, {"-vü"},
 }
 
-var c18Last = []string{"", "-", "--", "--v", "--ve", "--f", "--x", "--s", "-v", "-f", "-fal", "-f=al", "--file=al", "--file=", "--from=", "--from=a", "--num=", "al", "a", "ad", "r", "zz", "g", "d", "h", "--de", "-o", "--opt=", "be"}
+var c18Last = []string{"", "-", "--", "--v", "--ve", "--f", "--x", "--s", "-v", "-f", "-fal", "-f=al", "--file=al", "--file=", "--from=", "--from=a", "--num=", "al", "a", "ad", "r", "zz", "g", "d", "h", "--de", "-o", "--opt=", "be", "-ü", "-üal", "-ü=g", "--u"}
 
 func wordsMatching(list []string, prefix string) []string {
 	var out []string
@@ -103,6 +105,9 @@ func init() {
 		subOpt := c.Bool()
 		defOpts := c.Bool()
 		maxDepth := 3
+		if !c.Thorough && defOpts {
+			maxDepth = 2 // quick: the HelpFlag variants only differ by the built-in help options
+		}
 		if c.Thorough && layout == 2 && !defOpts {
 			maxDepth = 4
 		}
@@ -296,9 +301,9 @@ func init() {
 		Level:      "model_checking",
 		ShardDepth: 5,
 		Body:       body,
-		Rule: "declaration with Completer-typed options (short+long, long-only, two different word lists), an optional-argument option, hidden option and hidden command, short-only option, commands sharing a prefix (add, adx), alias, sub-subcommand; " +
-			"positionals of add in 5 layouts (none, [Words], [Words,int], [int,Words], [Words, ...Words2]) x subcommands-optional on the parser yes/no x HelpFlag yes/no; every valid prefix (the CLM in prefix mode accepts it) of <= 3 units (thorough: <= 4 on the [Words,int] layout without HelpFlag) over 23 units " +
-			"(flags, separate / attached / '=' arguments, pending option, cluster ending in a pending option, optional-argument option, command words and alias, plain words, numbers, terminator) x 29 partial last words; " +
+		Rule: "declaration with Completer-typed options (short+long, long-only, a multi-byte short name, two different word lists), an optional-argument option, hidden long and hidden short-only options, hidden command, short-only option, commands sharing a prefix (add, adx), alias, sub-subcommand; " +
+			"positionals of add in 5 layouts (none, [Words], [Words,int], [int,Words], [Words, ...Words2]) x subcommands-optional on the parser yes/no x HelpFlag yes/no; every valid prefix (the CLM in prefix mode accepts it) of <= 3 units (quick: <= 2 on the HelpFlag variants; thorough: <= 4 on the [Words,int] layout without HelpFlag) over 26 units " +
+			"(flags, separate / attached / '=' arguments, pending option, cluster ending in a pending option, optional-argument option, command words and alias, plain words, numbers, terminator) x 33 partial last words; " +
 			"oracle from the CLM context after the prefix: (a) '-' / '--p' => exactly the non-hidden options in scope with that prefix, (b) value position of a Completer-typed option or positional => exactly its words re-attached to the spelling, " +
 			"(c) otherwise the non-hidden subcommands with that prefix, (d) sorted, (e) every offered option/command re-parsed by the real parser at that position is not unknown, (f) the real parser's Active chain on the typed words equals the model's",
 		Assumptions:  []string{"left unasserted: option names after --, the echo of a complete short flag, value positions whose type has no completions, PassAfterNonOption"},
